@@ -5,32 +5,17 @@
    "num/den" in decimal.  Nothing here computes: it only converts and prints. *)
 module M = Sbmodel
 
-(* ---------- conversions between OCaml/Zarith values and extracted numbers *)
-let rec pos_of_zz (n : Z.t) : M.positive =
-  if Z.equal n Z.one then M.XH
-  else if Z.is_even n then M.XO (pos_of_zz (Z.shift_right n 1))
-  else M.XI (pos_of_zz (Z.shift_right n 1))
+(* ---------- conversions: positive, N and Z are extracted to zarith integers (ExtrOcamlZBigInt),
+   so these are identities; nat and Q stay the extracted types *)
+let pos_of_zz (n : Z.t) : Z.t = n
+let z_of_zz (n : Z.t) : Z.t = n
+let zz_of_pos (n : Z.t) : Z.t = n
+let zz_of_z (n : Z.t) : Z.t = n
 
-let z_of_zz (n : Z.t) : M.z =
-  match Z.sign n with
-  | 0 -> M.Z0
-  | 1 -> M.Zpos (pos_of_zz n)
-  | _ -> M.Zneg (pos_of_zz (Z.neg n))
-
-let rec zz_of_pos = function
-  | M.XH -> Z.one
-  | M.XO p -> Z.shift_left (zz_of_pos p) 1
-  | M.XI p -> Z.succ (Z.shift_left (zz_of_pos p) 1)
-
-let zz_of_z = function
-  | M.Z0 -> Z.zero
-  | M.Zpos p -> zz_of_pos p
-  | M.Zneg p -> Z.neg (zz_of_pos p)
-
-let z_of_int n = z_of_zz (Z.of_int n)
-let int_of_z z = Z.to_int (zz_of_z z)
-let z_of_string s = z_of_zz (Z.of_string s)
-let string_of_z z = Z.to_string (zz_of_z z)
+let z_of_int n = Z.of_int n
+let int_of_z z = Z.to_int z
+let z_of_string s = Z.of_string s
+let string_of_z z = Z.to_string z
 
 let rec nat_of_int n = if n <= 0 then M.O else M.S (nat_of_int (n - 1))
 let nat_of_int n =
@@ -41,7 +26,7 @@ let int_of_nat n =
   let rec go acc = function M.O -> acc | M.S k -> go (acc + 1) k in
   go 0 n
 
-let bytes_of_hex (s : string) : M.z list =
+let bytes_of_hex (s : string) : Z.t list =
   if s = "-" then []
   else begin
     let n = String.length s / 2 in
@@ -52,7 +37,7 @@ let bytes_of_hex (s : string) : M.z list =
     go (n - 1) []
   end
 
-let hex_of_bytes (l : M.z list) : string =
+let hex_of_bytes (l : Z.t list) : string =
   if l = [] then "-"
   else String.concat "" (List.map (fun b -> Printf.sprintf "%02x" ((int_of_z b) land 255)) l)
 
@@ -79,7 +64,7 @@ let show_res_code (f : 'a -> string) = function
 
 let route_of = function "mem" -> M.Mem | "fd" -> M.Fd | s -> failwith ("route " ^ s)
 
-let run_file_script (r : M.route) (bytes : M.z list) (script : string) : string =
+let run_file_script (r : M.route) (bytes : Z.t list) (script : string) : string =
   match M.parser_init r bytes with
   | M.Ok p0 ->
     let p = ref p0 in
@@ -143,7 +128,7 @@ let string_of_q (q : M.q) : string =
   if Z.equal d Z.one then Z.to_string n else Z.to_string n ^ "/" ^ Z.to_string d
 
 (* ---------- RTH (C11) *)
-let run_rth (b : M.z list) (pts : int list) (times : string list) : string =
+let run_rth (b : Z.t list) (pts : int list) (times : string list) : string =
   match M.plan_init b with
   | M.Ok pl ->
     let hd = pr "init:0 ne=%d np=%d" (int_of_nat (M.num_entries pl)) (int_of_nat pl.M.pl_num_points) in
@@ -166,13 +151,13 @@ let qtime_of_hex s = match fval_of_hex s with
   | FNaN -> failwith "NaN time" | FNegInf -> M.QNegInf | FPosInf -> M.QPosInf
   | FFin (n, d) -> M.QFin (q_of_zz n d)
 
-let qabs_of_time = function M.QFin q -> q | _ -> { M.qnum = M.Z0; M.qden = M.XH }
+let qabs_of_time = function M.QFin q -> q | _ -> { M.qnum = Z.zero; M.qden = Z.one }
 
 let show_vec4 (v : M.vec4) = pr "%s,%s,%s,%s" (string_of_q v.M.vx) (string_of_q v.M.vy) (string_of_q v.M.vz) (string_of_q v.M.vyaw)
 
 (* traj <hex> <queries>: each query is a letter (p,v,a) followed by the binary32 time; the
    cursor is threaded through the queries like the C player ('h' mode) or reset for each ('f' mode) *)
-let run_traj (mode : string) (b : M.z list) (queries : string list) : string =
+let run_traj (mode : string) (b : Z.t list) (queries : string list) : string =
   match M.traj_init b with
   | M.Ok tr ->
     let dur = show_res_code (fun d -> string_of_z d) (M.total_duration_msec tr) in
@@ -206,7 +191,7 @@ let run_traj (mode : string) (b : M.z list) (queries : string list) : string =
   | r -> "init:" ^ show_res_code (fun _ -> "0") r
 
 (* ---------- yaw (C10) *)
-let run_yaw (mode : string) (b : M.z list) (queries : string list) : string =
+let run_yaw (mode : string) (b : Z.t list) (queries : string list) : string =
   match M.yaw_init b with
   | M.Ok y ->
     let hd = pr "init:0 auto=%d off=%s n=%d empty=%d dur=%s" (if y.M.y_auto then 1 else 0) (string_of_z y.M.y_offset)
@@ -238,7 +223,7 @@ let light_fuel = nat_of_int 400000
 let show_rgbq (c : M.rgbq) = pr "%s,%s,%s" (string_of_q c.M.qr) (string_of_q c.M.qg) (string_of_q c.M.qb)
 
 (* light <mode f|h> <hex> <queries>: c<t> colour, p<t> pyro mask, s<t> seek (ended, next); t decimal ms *)
-let run_light (mode : string) (prog : M.z list) (queries : string list) : string =
+let run_light (mode : string) (prog : Z.t list) (queries : string list) : string =
   let pl = ref (M.player_fresh prog) in
   let outs = List.map (fun qs ->
       let kind = qs.[0] in
@@ -256,7 +241,7 @@ let run_light (mode : string) (prog : M.z list) (queries : string list) : string
   String.concat " " outs
 
 (* the declarative semantics on the same queries (always 'fresh') *)
-let run_lightspec (prog : M.z list) (queries : string list) : string =
+let run_lightspec (prog : Z.t list) (queries : string list) : string =
   let outs = List.map (fun qs ->
       let kind = qs.[0] in
       let t = z_of_string (String.sub qs 1 (String.length qs - 1)) in
@@ -286,7 +271,7 @@ let show_fnum = function
 let vec4_of_hex a b c d = { M.vx = q_of_hex a; M.vy = q_of_hex b; M.vz = q_of_hex c; M.vyaw = q_of_hex d }
 
 (* positions of a finished trajectory at the given times (ms), with the C01 tolerance *)
-let probe_positions (bytes : M.z list) (times_ms : int list) : string list =
+let probe_positions (bytes : Z.t list) (times_ms : int list) : string list =
   match M.traj_init bytes with
   | M.Ok tr ->
     let segs = M.segments_prefix tr in
@@ -396,6 +381,89 @@ let run_util (w : string list) : string =
     string_of_q (match op with "add" -> M.fadd x y | "sub" -> M.fsub x y | "mul" -> M.fmul x y | "div" -> M.fdiv x y | _ -> M.fsqrt x)
   | _ -> "bad-args"
 
+(* ---------- statistics, bounding box, polynomial toolkit (C13 C14 C15 C18) *)
+let show_cross = function
+  | M.NoCrossing -> "none"
+  | M.CrossIn (s, d, a, b, deg) -> pr "in:%s:%s:%s:%s:%d" (string_of_z s) (string_of_z d) (string_of_q a) (string_of_q b) (int_of_nat deg)
+
+let run_stats (w : string list) : string =
+  match w with
+  | ["takeoff"; b; ascent; speed; acc] ->
+    (match M.traj_init (bytes_of_hex b) with
+     | M.Ok tr ->
+       (match M.propose_takeoff tr (fnum_of_hex ascent) (fnum_of_hex speed) (fnum_of_hex acc) with
+        | M.Ok None -> "invalid"
+        | M.Ok (Some a) -> pr "%s travel=%s" (show_cross a.M.tk_cross) (show_fnum a.M.tk_travel)
+        | r -> show_res_code (fun _ -> "0") r)
+     | r -> "init:" ^ show_res_code (fun _ -> "0") r)
+  | ["landing"; b; descent; thr] ->
+    (match M.traj_init (bytes_of_hex b) with
+     | M.Ok tr ->
+       let total = show_res_code string_of_z (M.total_duration_msec tr) in
+       (match M.propose_landing tr (fnum_of_hex descent) (fnum_of_hex thr) with
+        | M.Ok (M.LandAtMs ms) -> pr "at:%s total=%s" (string_of_z ms) total
+        | M.Ok (M.LandAtMsFallback ms) -> pr "fallback:%s total=%s" (string_of_z ms) total
+        | M.Ok (M.LandIn (s, d, a, b, deg)) -> pr "in:%s:%s:%s:%s:%d total=%s" (string_of_z s) (string_of_z d) (string_of_q a) (string_of_q b) (int_of_nat deg) total
+        | r -> show_res_code (fun _ -> "0") r)
+     | r -> "init:" ^ show_res_code (fun _ -> "0") r)
+  | ["bbox"; b] ->
+    (match M.traj_init (bytes_of_hex b) with
+     | M.Ok tr ->
+       (match M.segments tr with
+        | M.Ok segs ->
+          if segs = [] then "empty" else
+          let axis (sel : M.segment -> M.q list) =
+            let (lo, hi, deg) = List.fold_left (fun (lo, hi, deg) (_, s) ->
+                let cs = M.make_bezier M.qOps { M.qnum = Z.one; M.qden = Z.one } (sel s) in
+                let one = { M.qnum = Z.one; M.qden = Z.one } and zero = { M.qnum = Z.zero; M.qden = Z.one } in
+                let (mxl, mxu) = M.poly_max (nat_of_int 14) cs zero one in
+                let (mnl, mnu) = M.poly_min (nat_of_int 14) cs zero one in
+                let d = List.length (sel s) - 1 in
+                ((match lo with None -> Some (mnl, mnu) | Some (a, b) -> Some ((if M.qle_bool mnl a then mnl else a), (if M.qle_bool mnu b then mnu else b))),
+                 (match hi with None -> Some (mxl, mxu) | Some (a, b) -> Some ((if M.qle_bool a mxl then mxl else a), (if M.qle_bool b mxu then mxu else b))),
+                 max deg d)) (None, None, 0) segs in
+            (match lo, hi with
+             | Some (a, b), Some (c, d) -> pr "%s:%s:%s:%s:%d" (string_of_q a) (string_of_q b) (string_of_q c) (string_of_q d) deg
+             | _ -> "?") in
+          pr "ok x=%s y=%s z=%s" (axis (fun s -> s.M.sg_x)) (axis (fun s -> s.M.sg_y)) (axis (fun s -> s.M.sg_z))
+        | r -> show_res_code (fun _ -> "0") r)
+     | r -> "init:" ^ show_res_code (fun _ -> "0") r)
+  | _ -> "bad-args"
+
+let qs_of_hexcsv s = if s = "-" then [] else List.map q_of_hex (String.split_on_char ',' s)
+
+let run_poly (w : string list) : string =
+  let show_qs l = if l = [] then "-" else String.concat "," (List.map string_of_q l) in
+  match w with
+  | ["bezier"; d; pts; us] ->
+    let cs = M.make_bezier M.qOps (q_of_hex d) (qs_of_hexcsv pts) in
+    pr "c=%s v=%s" (show_qs cs) (show_qs (List.map (fun u -> M.qeval cs u) (qs_of_hexcsv us)))
+  | ["eval"; cs; us] -> let c = qs_of_hexcsv cs in pr "v=%s" (show_qs (List.map (fun u -> M.qeval c u) (qs_of_hexcsv us)))
+  | ["deriv"; cs] -> pr "c=%s" (show_qs (M.deriv M.qOps (qs_of_hexcsv cs)))
+  | ["scale"; cs; k] -> pr "c=%s" (show_qs (M.scale M.qOps (qs_of_hexcsv cs) (q_of_hex k)))
+  | ["stretch"; cs; k] -> pr "c=%s" (show_qs (M.stretch M.qOps (qs_of_hexcsv cs) (q_of_hex k)))
+  | ["addc"; cs; k] -> pr "c=%s" (show_qs (M.add_constant M.qOps (qs_of_hexcsv cs) (q_of_hex k)))
+  | ["solve"; cs; y] ->
+    (* every real root of p = y inside the Cauchy bound: merged boxes of width ~2^-30 of the bound *)
+    let c = M.shift_poly (qs_of_hexcsv cs) (q_of_hex y) in
+    let bnd = M.cauchy_bound c in
+    let nb = { M.qnum = Z.neg bnd.M.qnum; M.qden = bnd.M.qden } in
+    let boxes = M.merge_boxes (M.root_boxes (nat_of_int 24) c nb bnd) in
+    pr "roots=%s" (if boxes = [] then "-" else String.concat ";" (List.map (fun (a, b) ->
+        pr "%s:%s:%d" (string_of_q a) (string_of_q b) (if M.sign_change c a b then 1 else 0)) boxes))
+  | ["touches"; cs; y] ->
+    let c = M.shift_poly (qs_of_hexcsv cs) (q_of_hex y) in
+    let one = { M.qnum = Z.one; M.qden = Z.one } and zero = { M.qnum = Z.zero; M.qden = Z.one } in
+    (match M.first_root (nat_of_int 44) c zero one with
+     | M.NoRoot -> "none"
+     | M.Maybe (a, b) -> pr "in:%s:%s:%d" (string_of_q a) (string_of_q b) (if M.sign_change c a b then 1 else 0))
+  | ["extrema"; cs] ->
+    let c = qs_of_hexcsv cs in
+    let one = { M.qnum = Z.one; M.qden = Z.one } and zero = { M.qnum = Z.zero; M.qden = Z.one } in
+    let (mxl, mxu) = M.poly_max (nat_of_int 14) c zero one and (mnl, mnu) = M.poly_min (nat_of_int 14) c zero one in
+    pr "min=%s:%s max=%s:%s" (string_of_q mnl) (string_of_q mnu) (string_of_q mxl) (string_of_q mxu)
+  | _ -> "bad-args"
+
 (* ---------- dispatch *)
 let run_case (w : string list) : string =
   match w with
@@ -419,6 +487,8 @@ let run_case (w : string list) : string =
   | ["rgbenc"; r; g; b] ->
     pr "ok %s" (string_of_z (M.encode_rgb565 { M.red = z_of_string r; M.green = z_of_string g; M.blue = z_of_string b }))
   | ["file"; r; b; script] -> run_file_script (route_of r) (bytes_of_hex b) script
+  | "stats" :: rest -> run_stats rest
+  | "poly" :: rest -> run_poly rest
   | ["build"; sc; fl; calls] -> run_build sc fl calls
   | "rth2traj" :: rest -> run_rth2traj rest
   | "util" :: rest -> run_util rest
